@@ -49,6 +49,9 @@ ROUTES = {
     "diag_matrix()": ("M", ["dmat", ["vec", "y"]]),
     "symmetric": ("M", _G),
     "symmetric-row": ("V", ["row", _G, 2]),
+    "long-vector(40)": ("V", ["vec", "w"]),
+    "long-vector-slice(35)": ("V", ["slice", ["vec", "w"], 3, 38, None]),
+    "square-matrix(6x6)": ("M", ["mat", "H"]),
     "from_numpy": ("V", _x),
     "from_numpy-slice": ("V", ["slice", _x, 1, 4, None]),
     "diag_matrix()-of-from_numpy": ("M", ["dmat", ["vec", "y"]]),
@@ -75,6 +78,8 @@ def decls_for(domain, odd_bounds=False, via=None):
         {"k": "vec", "name": "y", "n": 2, **kw, **({"via": via} if via else {})},
         {"k": "mat", "name": "A", "r": 2, "c": 3, **kw},
         {"k": "mat", "name": "G", "r": 3, "c": 3, "sym": True, **kw},
+        {"k": "vec", "name": "w", "n": 40, **kw},
+        {"k": "mat", "name": "H", "r": 6, "c": 6, **kw},
     ]
 
 
@@ -168,14 +173,14 @@ def make_problem(route, domain, shape, nonlinear, odd):
 def info(tier):
     return {
         "level": LEVEL,
-        "rule": "declaration route (19) x domain (2) x model shape (3) x method (11) x {linear, nonlinear objective}; per cell: "
+        "rule": "declaration route (22) x domain (2) x model shape (3) x method (11) x {linear, nonlinear objective}; per cell: "
         "strict=True must raise IntegerVariableError with exactly the discrete problem variables and 0 seam calls; "
         "non-strict must warn naming exactly them and equal the twin's continuous relaxation; binary bounds (0,1) and view "
         "domains checked on every element; quick runs a seed-rotated third of the method axis per cell; distinct = canonical "
         "(problem, method) hashes",
         "required_cells": [f"route:{r}" for r in ROUTES] + [f"method:{m}" for m in METHODS] + [f"shape:{s}" for s in SHAPES]
         + ["domain:integer", "domain:binary", "strict-raises", "warning-names", "relaxation-equals-twin", "binary-bounds", "view-domain",
-                             "repeat:strict-after-solve", "repeat:warning-after-solve", "bounds:plain", "bounds:odd", "bounds:fractional", "bounds:pinned-some", "bounds:pinned-all", "bounds:large", "non-strict-spelling:omitted", "non-strict-spelling:False", "non-strict-spelling:None", "non-strict-spelling:0"],
+                             "repeat:strict-after-solve", "repeat:warning-after-solve", "bounds:plain", "bounds:odd", "bounds:fractional", "bounds:pinned-some", "bounds:pinned-all", "bounds:large", "warning-when-the-solver-call-fails", "non-strict-spelling:omitted", "non-strict-spelling:False", "non-strict-spelling:None", "non-strict-spelling:0"],
         "assumptions": ["the relaxation twin is the same recipe with domain=continuous (binary -> [0,1]) solved in the twin process with the same method"],
     }
 
@@ -257,6 +262,21 @@ def run_cell(rec, seams, twin, route, domain, shape, method, nonlinear, odd):
         bad("strict-raises-other:" + type(ex).__name__, error=repr(ex)[:200])
         return
 
+    # --- non-strict, and the underlying solver call fails at once: the relaxation is still announced -------------------
+    if not (is_lp and method in LP_ONLY | {"auto"}):
+        seams.reset()
+        seams.min_stub = lambda call: (_ for _ in ()).throw(ValueError("scripted failure inside the solver call"))
+        try:
+            with warnings.catch_warnings(record=True) as wl0:
+                warnings.simplefilter("always")
+                s0 = P.solve(method=method, **kw)
+            rec.cmp(1, "warning-when-the-solver-call-fails")
+            if seams.min_calls and not any(issubclass(w.category, UserWarning) and "integer/binary" in str(w.message) for w in wl0):
+                bad("no-relaxation-warning-when-the-solver-call-fails", status=s0.status.value)
+        except Exception as ex:
+            rec.events["scripted-solver-failure-propagated:" + type(ex).__name__] += 1
+        finally:
+            seams.min_stub = None
     # --- non-strict: warning + relaxation ----------------------------------------
     seams.reset()
     try:
